@@ -6,7 +6,7 @@ import sys
 
 pid, k, slug, needs = sys.argv[1], sys.argv[2], sys.argv[3], sys.argv[4]
 src = f"/tmp/seedout/{pid}/{k}"
-dst = f"/verif/seeded/{pid}-{slug}"
+dst = f"/verif/seeded/{pid[:3]}-{slug}"
 os.makedirs(dst, exist_ok=True)
 for fn in ("patch.diff", "demo.py", "notes.md"):
     shutil.copy(os.path.join(src, fn), os.path.join(dst, fn))
@@ -15,8 +15,8 @@ rerun = None
 if os.path.exists(os.path.join(src, "failed.txt")):
     rerun = open(os.path.join(src, "failed.txt")).read().split()
 meta = {
-    "property": pid,
-    "origin": "independent sub-agent given only the property text and a scratch worktree of /repo (base 4a359ef)",
+    "property": pid[:3],
+    "origin": "independent sub-agent given only the property text and a scratch worktree of /repo (base: /repo HEAD at the time, see confirm.json)",
     "needs_to_manifest": needs,
     "confirmed": {
         "how": "tools/seed_confirm.sh in the scratch worktree: demo on clean tree, demo with patch, full test suite with patch",
